@@ -166,8 +166,24 @@ func c04Run(ctx *run.Ctx, id run.CaseID) {
 			continue
 		}
 		nodes := flattenTree(tree.PolyPathBase)
+		class := ""
 		fail := func(sub, detail string) {
-			ctx.Fail(digest, sub+"/"+tag, "", fmt.Sprintf("%s; flat=%v", detail, flat), in)
+			ctx.Fail(digest, sub+"/"+tag, class, fmt.Sprintf("%s; flat=%v", detail, flat), in)
+			class = ""
+		}
+		inEdges := oracle.NewEdges(true, subj, clp)
+		// a polygon that lies entirely inside the 2-unit rounding band of the input edges and is thinner than the band
+		// (area <= 2.5 x perimeter, every vertex within 2.5 of an input edge) is a rounding artefact C01 permits to exist
+		isBandSliver := func(p Path) bool {
+			per := 0.0
+			for i := range p {
+				a, b := p[i], p[(i+1)%len(p)]
+				per += math.Hypot(float64(b.X-a.X), float64(b.Y-a.Y))
+				if inEdges.MinDist(a) > 2.5 {
+					return false
+				}
+			}
+			return math.Abs(oracle.Area2(p).Float())/2 <= 2.5*per
 		}
 		// (1) same polygons
 		var tp []Path
@@ -206,6 +222,9 @@ func c04Run(ctx *run.Ctx, id run.CaseID) {
 		bad := false
 		for i, n := range nodes {
 			if n.area2.Sign() != 0 && n.isHole != (n.area2.Sign() < 0) {
+				if isBandSliver(n.poly) {
+					class = "in-band-sliver-orientation"
+				}
 				fail("hole-orientation", fmt.Sprintf("node %d level %d IsHole=%v but signed area sign is %d: %v", i, n.level, n.isHole, n.area2.Sign(), n.poly))
 				bad = true
 				break
